@@ -15,6 +15,8 @@ pub enum StrClass {
     Dirty,
     Long,
     DotsOnly,
+    /// what real deployments put there: container runtime ids, UUIDs, well-known tag names, host names, versions
+    Realistic,
 }
 
 impl StrClass {
@@ -26,6 +28,7 @@ impl StrClass {
             StrClass::Dirty => "dirty",
             StrClass::Long => "long",
             StrClass::DotsOnly => "dots",
+            StrClass::Realistic => "realistic",
         }
     }
 }
@@ -46,6 +49,39 @@ pub fn clean_multi(r: &mut Rng, min: usize, max: usize) -> String {
         }
     }
     s
+}
+
+/// Values that look like what production systems really configure (all delimiter-free): a library may know such shapes
+/// ("a 64-digit hex string is a docker id", "`env` is a reserved tag") - a client sends them as they are.
+pub fn realistic(r: &mut Rng) -> String {
+    fn hex(r: &mut Rng, n: usize, upper: bool) -> String {
+        (0..n).map(|_| if upper { b"0123456789ABCDEF" } else { b"0123456789abcdef" }[r.usize_below(16)] as char).collect()
+    }
+    match r.below(24) {
+        0 | 1 => hex(r, 64, false),
+        2 => format!("ci-{}", hex(r, 64, false)),
+        3 => format!("in-{}", r.range(1, 4_000_000_000)),
+        4 => format!("{}-{}-{}-{}-{}", hex(r, 8, false), hex(r, 4, false), hex(r, 4, false), hex(r, 4, false), hex(r, 12, false)),
+        5 => hex(r, 32, false),
+        6 => hex(r, 64, true),
+        7 => hex(r, 12, false),
+        8 => (*r.pick(&["env", "service", "version", "host", "hostname", "device", "source", "container_id", "pod_name", "kube_namespace", "dd.internal.entity_id", "dd.internal.card", "region", "availability-zone"])).to_string(),
+        9 => (*r.pick(&["prod", "production", "staging", "dev", "us-east-1", "eu-west-1a", "true", "false", "null", "none", "0", "1", "-1", "NaN", "inf"])).to_string(),
+        10 => format!("{}.{}.{}", r.below(20), r.below(100), r.below(1000)),
+        11 => format!("v{}.{}.{}-rc{}+build{}", r.below(9), r.below(9), r.below(9), r.below(9), r.below(999)),
+        12 => format!("ip-10-{}-{}-{}.ec2.internal", r.below(256), r.below(256), r.below(256)),
+        13 => format!("{}.{}.{}.{}", r.below(256), r.below(256), r.below(256), r.below(256)),
+        14 => (*r.pick(&["my.app", "myapp", "statsd", "datadog", "dogstatsd", "cadence", "app.metrics", "http.requests", "requests.count", "latency_ms", "system.cpu.user"])).to_string(),
+        15 => format!("pod-{}-{}", hex(r, 10, false), hex(r, 5, false)),
+        16 => format!("/docker/{}", hex(r, 64, false)),
+        17 => format!("cri-containerd-{}.scope", hex(r, 64, false)),
+        18 => r.range(1_500_000_000, 2_000_000_000).to_string(),
+        19 => hex(r, 63, false),
+        20 => hex(r, 65, false),
+        21 => (*r.pick(&["localhost", "127.0.0.1", "8125", "udp", "unix", "http", "https"])).to_string(),
+        22 => format!("{}{}", hex(r, 63, false), "g"),
+        _ => hex(r, 40, false),
+    }
 }
 
 pub fn dirty(r: &mut Rng, min: usize, max: usize) -> String {
@@ -80,6 +116,7 @@ pub fn of_class(r: &mut Rng, c: StrClass) -> String {
             clean_ascii(r, n, n)
         }
         StrClass::DotsOnly => ".".repeat(r.range(1, 4) as usize),
+        StrClass::Realistic => realistic(r),
     }
 }
 
@@ -91,7 +128,7 @@ pub fn pick_class(r: &mut Rng, allow_dirty: bool, allow_empty: bool) -> StrClass
             10..=13 => StrClass::CleanMulti,
             14..=17 => StrClass::Dirty,
             18 => StrClass::Long,
-            _ => StrClass::CleanAscii,
+            _ => StrClass::Realistic,
         };
         if c == StrClass::Dirty && !allow_dirty {
             continue;
